@@ -186,11 +186,13 @@ class C06(Check):
         elif layer == 'two':
             for col in A.columns(tier, 'c06'):
                 n = len(col['vals'])
+                if col['fam'] == 'manycat':
+                    continue
                 big = col['fam'] in ('i64', 'f64', 'strobj')
                 if tier == 'quick':
                     lim = 2 if big else 1
                 else:
-                    lim = 3 if big else 2
+                    lim = 3 if col['fam'] in ('i64', 'f64') else 2
                 if n > lim or n == 0:
                     continue
                 for k1 in A.KINDS:
@@ -792,10 +794,10 @@ class C06(Check):
                                  ('b c', [spec_entry('type', 'string')]),
                                  ('zz', [spec_entry('max_nulls', 0)]),
                                  ('a_min_ok', [spec_entry('max', 2)])):
+                n += 1
                 if self.tier == 'thorough':
-                    todo = combos
+                    todo = [combos[(n + j * 4) % len(combos)] for j in (0, 1, 2)]
                 else:
-                    n += 1
                     todo = [combos[n % len(combos)]]
                 for (o, sink) in todo:
                     names = ['a', n2 if n2 != 'zz' else 'b c']
